@@ -854,8 +854,27 @@ impl<'a> Model<'a> {
             let m_free = build_matrix(self.cfg, &boxes, &cand, false);
             let v_free = analyse(&m_free, cand.len());
             let table_matters = self.cfg.constraints.is_some() && v_free.best != v.best;
+            // ... or was an admitted pair refused in a way that a row configured for ANOTHER gap
+            // explains (the pair the reference continues is within its own limit but beyond the
+            // limit of some other row)? Then the table lookup picked the wrong row: C20.
+            let wrong_row = self
+                .cfg
+                .constraints
+                .as_ref()
+                .map(|t| {
+                    v.best.iter().enumerate().any(|(i, b)| match b {
+                        Some(j) if actual.get(i).copied().flatten() != Some(*j) => {
+                            let d = dist_in_2r(&boxes[i], &cand[*j].pred) as f64;
+                            t.iter().any(|(_, lim)| d > *lim as f64)
+                        }
+                        _ => false,
+                    })
+                })
+                .unwrap_or(false);
             let (p, clause, detail) = if table_matters && actual == v_free.best {
                 ("C20", "table-ignored", "assignment-as-if-unconstrained")
+            } else if wrong_row {
+                ("C20", "pair-refused-within-limit", "another-rows-limit-would-explain-it")
             } else {
                 ("C02", "optimal", "not-the-maximum-weight-assignment")
             };
